@@ -185,7 +185,7 @@ class _Shards:
 GRAPHS = {
     # name: (MaxV, MaxE, MaxMarks, AllowTag, SelfLoops)
     "quick": {"edges": (3, 2, 2, False, False), "marks": (4, 0, 3, False, False), "tags-loops": (2, 2, 1, True, True)},
-    "thorough": {"edges": (3, 3, 3, False, False), "marks": (4, 1, 4, False, False), "tags-loops": (3, 2, 1, True, True)},
+    "thorough": {"edges": (3, 3, 3, False, False), "marks": (4, 0, 8, False, False), "tags-loops": (3, 1, 1, True, True)},
 }
 GRAPH_MC = {
     "quick": {"mc-4x1": (4, 1, 2, False, True), "mc-3x2t": (3, 2, 2, True, True)},
@@ -283,6 +283,20 @@ def _tlc_jobs(tier):
     for f in files.values():
         f.close()
     return res, dict(shapes=shapes, pairs=pairs, table=table), graphs, ren
+
+
+def _only_both_lost(orig, obs):
+    """The loaded table differs from the stored one exactly by the goal marks of start-and-goal vertices."""
+    if not orig or not obs:
+        return False
+    both = [v for v in orig["goals"] if v in orig["starts"]]
+    want = dict(orig)
+    want["goals"] = [v for v in orig["goals"] if v not in orig["starts"]]
+    want["gl"] = sorted(want["goals"])
+    got = dict(obs)
+    got["gl"] = sorted(obs["gl"])
+    norm = lambda t: {k: (sorted(v) if isinstance(v, list) and k != "verts" else v) for k, v in t.items()}
+    return bool(both) and norm(want) == norm(got)
 
 
 def run(tier):
@@ -398,7 +412,7 @@ def run(tier):
             rp = ck.replay_file("trace-%d.ndjson" % i)
             shutil.copyfile(tpath, rp)
             if prefix == len(evs) - 1 and bad.get("e") == "RoundTrip" and bad.get("both") == 1 and bad.get("ret") == 1 \
-                    and not bad["obs"]["goals"] and bad["obs"]["starts"]:
+                    and _only_both_lost(bad.get("orig"), bad.get("obs")):
                 # everything before the deliberately last line was accepted
                 ck.violation(KEY_D8, "recorded execution: a vertex marked start and goal came back from store/load as "
                                      "start only (last line of the trace): %s" % json.dumps(bad)[:300], rp)
